@@ -41,10 +41,31 @@ Section Hist.
     | None => []
     | Some u => map snd (filter (fun e => fst e =? u) (ah_sent a))
     end.
+
+  (* The packet that IS retransmitted for a number sent several times: the
+     latest send, except that a re-send of the current highest number is
+     ignored (the first one is kept).  ah_add_x is ah_add without those
+     ignored re-sends. *)
+  Definition ah_add_x (a : ahist) (seq : Z) (x : X) : ahist :=
+    match ah_hi a with
+    | None => mkAH (Some seq) [(seq, x)]
+    | Some h => if (seq - h) mod 65536 =? 0 then a
+                else let u := unwrap_to h seq in mkAH (Some (Z.max h u)) ((u, x) :: ah_sent a)
+    end.
+
+  Definition lookup (u : Z) (sent : list (Z * X)) : option X :=
+    option_map snd (find (fun e => fst e =? u) sent).
+
+  Definition designated (size : Z) (a : ahist) (seq : Z) : option X :=
+    match in_window size a seq with
+    | None => None
+    | Some u => lookup u (ah_sent a)
+    end.
 End Hist.
 
 Arguments mkAH {X}. Arguments ah_hi {X}. Arguments ah_sent {X}. Arguments ah_empty {X}.
 Arguments ah_add {X}. Arguments in_window {X}. Arguments candidates {X}.
+Arguments ah_add_x {X}. Arguments lookup {X}. Arguments designated {X}.
 
 (* ---- what "the packet as originally sent / its RFC 4588 form" means ---- *)
 
